@@ -238,6 +238,10 @@ class Universe:
             items: List[C]
             g: G[str]
 
+        class Junk:              # an object that is no type hint and implements no operator (unlike the int 5: ~5 == -6)
+            def __repr__(self):
+                return "junk"
+
         self.cls = dict(C=C, CSub=CSub, A=A, AImpl=AImpl, Pr=Pr, PrImpl=PrImpl, PrSub=PrSub, G=G, GSub=GSub, AG=AG,
                         AGImpl=AGImpl, DataPr=DataPr, DataImpl=DataImpl, NonRtPr=NonRtPr, Inner=Inner, Outer=Outer)
         named = dict(self.cls)
@@ -246,7 +250,7 @@ class Universe:
             "list": list, "list[C]": list[C], "List[C]": List[C], "List": List, "list[T]": List[T],
             "Optional[C]": Optional[C], "Union[None,C]": Union[None, C], "Union[C,int]": Union[C, int],
             "Union": Union, "Literal": Literal, "Literal[1]": Literal[1], "Annotated[C,m]": Annotated[C, "m"],
-            "T": T, "int": int, "str": str, "None": None, "Any": typing.Any, "junk5": 5,
+            "T": T, "int": int, "str": str, "None": None, "Any": typing.Any, "junk5": Junk(),
             "Sequence": typing.Sequence, "Sequence[C]": typing.Sequence[C], "tuple": tuple, "NewType": typing.NewType("NT", C),
         })
         self.names: list = []       # id -> name
@@ -924,17 +928,29 @@ def exhaustive_exprs(u, thorough):
     return out
 
 
-def in_model(e):
+def in_model(e, u=None):
     """the fragment of Python the model covers: subscription / attribute access only on patterns, operators with at
-    least one checker or pattern operand (`C | A` is a typing.Union, `'a' + 'b'` a str — not predicates at all)"""
+    least one checker or pattern operand (`C | A` is a typing.Union, `'a' + 'b'` a str — not predicates at all), and no
+    `|` whose left operand is a `typing` object (their own `__or__` tries to build a Union and raises TypeError itself)"""
     subs = [v for v in e.values() if isinstance(v, dict)] + [x for v in e.values() if isinstance(v, list) for x in v]
-    if not all(in_model(x) for x in subs):
+    if not all(in_model(x, u) for x in subs):
         return False
     k = e["e"]
     if k in ("getitem", "tuple", "getattr", "generic_arg", "build"):
         return sort_of(e["p"]) == "pattern"
     if k in ("or", "and", "xor", "add"):
-        return not (sort_of(e["a"]) == "pred" and sort_of(e["b"]) == "pred")
+        if sort_of(e["a"]) == "pred" and sort_of(e["b"]) == "pred":
+            return False
+        if k == "or" and u is not None:
+            def typing_object(x):       # implements `|` itself (TypeVar, typing aliases, special forms): builds a Union
+                if x["e"] != "ty":
+                    return False
+                o = u.objs[x["v"]]
+                return not (isinstance(o, type) or o is None or type(o).__name__ == "Junk")
+            if typing_object(e["a"]):
+                return False
+            if typing_object(e["b"]) and sort_of(e["a"]) != "pattern":
+                return False
     return True
 
 
@@ -1571,7 +1587,13 @@ def suite_e2e(ctx: Ctx, u, drv, exprs):
     # 1. record the stacks a retort really produces (a predicate that matches nothing)
     recorded = {}
     for direction in ("load", "dump"):
-        _res, log = e2e.observe(~P.ANY, direction)
+        try:
+            _res, log = e2e.observe(~P.ANY, direction)
+        except Exception as ex:      # the retort cannot serve a plain dataclass at all: the tie is broken, the other
+            ctx.disagree("e2e", {"suite": "e2e", "stage": "record", "direction": direction},   # oracles decide
+                         f"{type(ex).__name__}: {ex}"[:300], "a retort with a never-matching loader serves the model")
+            ctx.suite("e2e", 1, 1)
+            return
         recorded[direction] = [[u.json_loc(l) for l in st] for st in log]
     all_stacks = recorded["load"] + recorded["dump"]
     S = Stacks(u, all_stacks)
@@ -1679,11 +1701,10 @@ def run(ctx: Ctx):
 
     exprs = exhaustive_exprs(u, thorough)
     n_exh = len(exprs)
-    ctx.rng.shuffle(exprs) if False else None
     rnd = []
     while len(rnd) < ctx.budget(700, 8000):
         e = rand_expr(u, ctx.rng, ctx.rng.randint(1, 5), hostile=0.12)
-        if in_model(e):
+        if in_model(e, u):
             rnd.append(e)
     suite_exprs(ctx, u, S, drv, exprs, spec, real, "exhaustive")
     suite_exprs(ctx, u, S, drv, rnd, spec, real, "random")
@@ -1722,7 +1743,7 @@ def search(ctx: Ctx):
     rnd = []
     while len(rnd) < 6000:
         e = rand_expr(u, ctx.rng, ctx.rng.randint(1, 6), hostile=0.1)
-        if in_model(e):
+        if in_model(e, u):
             rnd.append(e)
     suite_exprs(ctx, u, S, None, rnd, spec, real, "search")
     pats, chks = algebra_operands(u)
